@@ -86,6 +86,9 @@ func (p *Program) newEffects() *effects {
 		if fn.Synthetic != "" && !strings.HasPrefix(fn.Synthetic, "instance of") && fn.Synthetic != "package initializer" {
 			continue // wrappers, thunks
 		}
+		if fn.TypeParams().Len() > 0 && len(fn.TypeArgs()) == 0 && !(fn.Object() != nil && fn.Object().Exported()) {
+			continue // the uninstantiated body of an unexported generic function: its instances are analysed with their callers
+		}
 		ef.fns = append(ef.fns, fn)
 		ef.inLib[fn] = true
 	}
